@@ -805,6 +805,7 @@ def reuse_sequences(chk):
             itp = SplineInterpolator1D(sp.basis, dtype) if cplx else SplineInterpolator1D(sp.basis)
             spl = Spline1D(sp.basis, dtype) if cplx else Spline1D(sp.basis)
             buf = np.zeros(sp.nb, dtype=dtype)          # ONE data array, re-filled in place before every call (a work array of the caller)
+            held = []                                   # results of array evaluations, kept by the caller across later calls
             for k, u in enumerate(seq):
                 u = u.astype(dtype) * ((1 + 0.5j) if cplx else 1)
                 if k % 2 == 1 or k >= 4:
@@ -816,10 +817,19 @@ def reuse_sequences(chk):
                 itp.compute_interpolant(u, spl)
                 vals = np.array([spl.eval(float(x)) for x in xs])
                 scale = float(np.abs(u).max())
+                if not cplx:
+                    held.append((k, spl.eval(xs.copy()), np.array(u, dtype=float), scale))
+                    spl.eval(xs.copy(), 1)              # a derivative evaluation at as many points afterwards
                 if not np.all(np.abs(vals - u) <= 1e-9 * scale * sp.nb):
                     chk.fail('C08:reuse-1d', 're-using a spline/interpolator: the interpolant of call %d does not take the data of that call '
                              '(e.g. zero data after non-zero data)' % k, {'space': sp.desc(), 'call': k, 'data': [complex(x) if cplx else float(x) for x in u]},
                              actual=[complex(v) if cplx else float(v) for v in vals])
+                    break
+            for k, va, u0, scale in held:
+                if not np.all(np.abs(np.asarray(va) - u0) <= 1e-9 * scale * sp.nb):
+                    chk.fail('C08:held-eval', 'the array returned by spl.eval(points) after call %d no longer holds the data of that call once '
+                             'the same spline has been interpolated / evaluated again (the result is not the caller\'s own array)' % k,
+                             {'space': sp.desc(), 'call': k, 'data': [float(x) for x in u0]}, actual=[float(v) for v in np.asarray(va)])
                     break
             # element types of the data: single precision (real / complex) values are exact doubles; the interpolant must take them
             for dt_ in ((np.complex64, np.float32) if cplx else (np.float32,)):
@@ -865,6 +875,40 @@ def reuse_sequences(chk):
                      {'space1': s1.desc(), 'space2': s2.desc()})
         chk.case(('reuse2d', it), nontrivial=True)
         chk.count('re-use sequences 2-D')
+    # long directions (hundreds of points along one direction, as in production grids): any blocking / batching of the 1-D solves
+    for it in range(chk.n(2, 10)):
+        long_first = it % 2 == 1
+        nlong = rng.choice([257, 300, 384, 513, 600]) if it % 3 else rng.randint(258, 700)
+        per_l, per_s = rng.random() < 0.5, rng.random() < 0.5
+        cu = rng.random() < 0.5
+        from pygyro.splines.splines import BSplines, make_knots
+        def space(n, per):
+            d = 3 if cu else rng.choice([1, 2, 3])
+            nc = n if per else n - d
+            br = np.linspace(0.0, 1.0 + rng.randint(0, 3), nc + 1)
+            if not cu:
+                br[1:-1] += (np.array([rng.random() for _ in range(nc - 1)]) - 0.5) * 0.3 * (br[1] - br[0])
+            return BSplines(make_knots(br, d, per), d, per, cu)
+        bl, bs = space(nlong, per_l), space(rng.randint(4, 7), per_s)
+        b1, b2 = (bl, bs) if long_first else (bs, bl)
+        U = np.array([[rng.gauss(0, 1) for _ in range(b2.nbasis)] for _ in range(b1.nbasis)])
+        case = {'nbasis': [int(b1.nbasis), int(b2.nbasis)], 'degrees': [int(b1.degree), int(b2.degree)], 'periodic': [bool(b1.periodic), bool(b2.periodic)],
+                'cubic_uniform': cu, 'breaks1': [float(x) for x in b1.breaks], 'breaks2': [float(x) for x in b2.breaks], 'u': U.tolist()}
+        try:
+            itp = SplineInterpolator2D(b1, b2)
+            spl = Spline2D(b1, b2)
+            itp.compute_interpolant(U, spl)
+            ev = np.empty_like(U)
+            spl.eval_vector(np.asarray(b1.greville, float).copy(), np.asarray(b2.greville, float).copy(), ev)
+            err = np.abs(ev - U)
+            if not np.all(err <= 1e-7 * float(np.abs(U).max())):
+                i, j = np.unravel_index(int(np.argmax(err)), err.shape)
+                chk.fail('C08:long-2d', '2-D interpolation with %d x %d points: the interpolant misses its data by %.3g at point (%d,%d)'
+                         % (b1.nbasis, b2.nbasis, float(err.max()), i, j), case)
+        except Exception as e:  # noqa: BLE001
+            chk.fail('C08:long-2d-raises', '2-D interpolation with a long direction raised %s: %s' % (type(e).__name__, e), case)
+        chk.case(('long2d', it, nlong, long_first), nontrivial=True)
+        chk.count('2-D cases with a long direction')
 
 
 def mixed_dtypes(chk):
